@@ -90,6 +90,10 @@ func (r *Report) Write(dir string) {
 
 // writeShards distributes case texts over n files cases_<prop>_<k>.v
 func writeShards(dir, prop string, header string, runFn string, caseType string, cases []string, n int, rep *Report) {
+	// at most ~250 cases per file keeps one coqc run below ~1 GB and a few minutes
+	if len(cases)/250 > n {
+		n = len(cases) / 250
+	}
 	if n > len(cases) {
 		n = len(cases)
 	}
@@ -101,7 +105,7 @@ func writeShards(dir, prop string, header string, runFn string, caseType string,
 		for i := k; i < len(cases); i += n {
 			body = append(body, cases[i])
 		}
-		name := fmt.Sprintf("cases_%s_%02d.v", prop, k)
+		name := fmt.Sprintf("cases_%s_%03d.v", prop, k)
 		f, err := os.Create(filepath.Join(dir, name))
 		if err != nil {
 			panic(err)
@@ -115,7 +119,7 @@ func writeShards(dir, prop string, header string, runFn string, caseType string,
 			}
 			fmt.Fprint(f, c)
 		}
-		fmt.Fprintf(f, "].\nDefinition M := Eval vm_compute in check_all %s cases.\nPrint M.\n", runFn)
+		fmt.Fprintf(f, "].\nDefinition M := Eval vm_compute in firstn 4 (check_all %s cases).\nPrint M.\n", runFn)
 		f.Close()
 		rep.Shards = append(rep.Shards, name)
 	}
